@@ -316,6 +316,26 @@ static void mutate_signature(const pair_t *p, jwt_checker_t *c, const char *base
 		sig[0] = 0; memcpy(sig + 1, t.dec[2], sl); with_sig(p, c, base, ilen, sig, sl + 1, "sig-zero-prefix", emit);
 		memcpy(sig, t.dec[2], sl); sig[sl] = 0; with_sig(p, c, base, ilen, sig, sl + 1, "sig-zero-suffix", emit);
 		sig[sl] = 0xff; with_sig(p, c, base, ilen, sig, sl + 1, "sig-ff-suffix", emit);
+		/* junk between a zero octet and the signature, and in front of it (a "sign octet" stripper must not skip unchecked octets) */
+		{
+			static const int junk[] = { 1, 2, 16, 64 };
+			for (unsigned k = 0; k < sizeof junk / sizeof *junk; k++) {
+				unsigned char *ext = malloc(sl + junk[k] + 2);
+				ext[0] = 0;
+				for (int q = 0; q < junk[k]; q++)
+					ext[1 + q] = (unsigned char)(0xa5 ^ (q * 29));
+				memcpy(ext + 1 + junk[k], t.dec[2], sl);
+				with_sig(p, c, base, ilen, ext, sl + junk[k] + 1, "sig-zero-junk-prefix", emit);
+				with_sig(p, c, base, ilen, ext + 1, sl + junk[k], "sig-junk-prefix", emit);
+				/* ... and the mirror image: signature, junk, zero octet */
+				memcpy(ext, t.dec[2], sl);
+				for (int q = 0; q < junk[k]; q++)
+					ext[sl + q] = (unsigned char)(0x5a ^ (q * 31));
+				ext[sl + junk[k]] = 0;
+				with_sig(p, c, base, ilen, ext, sl + junk[k] + 1, "sig-junk-zero-suffix", emit);
+				free(ext);
+			}
+		}
 		with_sig(p, c, base, ilen, t.dec[2], sl - 1, "sig-one-byte-short", emit);
 		with_sig(p, c, base, ilen, t.dec[2] + 1, sl - 1, "sig-first-byte-dropped", emit);
 		/* ECDSA: halves re-padded to the other legal widths, and stripped by one */
@@ -1023,6 +1043,57 @@ static void env_values(const char *self)
 			vf_violation("switch|JWT_CRYPTO", "JWT_CRYPTO=%s selected '%s', expected %s", vals[i] ? vals[i] : "(unset)", buf, want[i]);
 		vf_nontrivial_case();
 	}
+	/* switching after such a start: every sequence of two operations out of {openssl, gnutls, bogus, #1, #2, #3} from every start */
+	static const char *sops[] = { "openssl", "gnutls", "bogus", "#1", "#2", "#3" };
+	static const int sop_target[] = { 0, 1, -1, 0, 1, -1 };   /* provider selected on success; -1 = must be refused, nothing changes */
+	for (unsigned i = 0; i < sizeof vals / sizeof *vals; i++)
+		for (int a = 0; a < 6; a++) {
+			if (!vf_case("JWT_CRYPTO=%s at load time, then %s, then each of six switch operations", vals[i] ? (*vals[i] ? vals[i] : "(empty)") : "(unset)", sops[a]))
+				continue;
+			for (int b = 0; b < 6; b++) {
+				int fd[2];
+				if (pipe(fd))
+					continue;
+				pid_t pid = fork();
+				if (pid == 0) {
+					close(fd[0]);
+					dup2(fd[1], 1);
+					int dn = open("/dev/null", 1);
+					dup2(dn, 2);
+					if (vals[i])
+						setenv("JWT_CRYPTO", vals[i], 1);
+					else
+						unsetenv("JWT_CRYPTO");
+					execl(self, self, "--print-provider", sops[a], sops[b], (char *)NULL);
+					_exit(99);
+				}
+				close(fd[1]);
+				char buf[160] = "";
+				ssize_t n = read(fd[0], buf, sizeof buf - 1);
+				if (n > 0)
+					buf[n] = 0;
+				close(fd[0]);
+				int st;
+				waitpid(pid, &st, 0);
+				buf[strcspn(buf, "\n")] = 0;
+				/* model */
+				int cur = !strcmp(want[i], "gnutls");
+				char expect[160];
+				size_t o = snprintf(expect, sizeof expect, "%s", want[i]);
+				int seq[2] = { a, b };
+				for (int k = 0; k < 2; k++) {
+					int t = sop_target[seq[k]];
+					if (t >= 0)
+						cur = t;
+					o += snprintf(expect + o, sizeof expect - o, " %d:%s/%d", t < 0, cur ? "gnutls" : "openssl", cur ? JWT_CRYPTO_OPS_GNUTLS : JWT_CRYPTO_OPS_OPENSSL);
+				}
+				sw_transitions += 2;
+				vf_obs_str(buf);
+				if (strcmp(buf, expect))
+					vf_violation("switch|after-JWT_CRYPTO", "JWT_CRYPTO=%s then %s then %s: got '%s', expected '%s'", vals[i] ? vals[i] : "(unset)", sops[a], sops[b], buf, expect);
+			}
+			vf_nontrivial_case();
+		}
 }
 
 static void enumerate(void)
@@ -1045,8 +1116,14 @@ static void enumerate(void)
 
 int main(int argc, char **argv)
 {
-	if (argc == 2 && !strcmp(argv[1], "--print-provider")) {
-		printf("%s\n", jwt_get_crypto_ops());
+	if (argc >= 2 && !strcmp(argv[1], "--print-provider")) {
+		/* further arguments are switch operations: a name, or #id; after each, print "rc:provider" */
+		printf("%s", jwt_get_crypto_ops());
+		for (int i = 2; i < argc; i++) {
+			int rc = argv[i][0] == '#' ? jwt_set_crypto_ops_t((jwt_crypto_provider_t)atoi(argv[i] + 1)) : jwt_set_crypto_ops(argv[i]);
+			printf(" %d:%s/%d", rc != 0, jwt_get_crypto_ops(), (int)jwt_get_crypto_ops_t());
+		}
+		printf("\n");
 		return 0;
 	}
 	ssize_t n = readlink("/proc/self/exe", self_path, sizeof self_path - 1);
